@@ -4,13 +4,14 @@ from __future__ import annotations
 
 import ast
 
+from ..alpha import Loc, afind, amatch, facts
 from ..cfg import CFG
 from ..const import Folder
 from ..flow import Slicer, flat_guards, parent_map
 from ..model import Model, dotted, norm, walk_no_nested
 from ..report import Run
 from .C05 import _calls_in_stmt
-from .common import short
+from .common import prev_minus_new, short
 
 CONF = 'exabgp.configuration.configuration.Configuration'
 RIB = 'exabgp.rib.outgoing.OutgoingRIB'
@@ -86,7 +87,12 @@ def check(model: Model, run: Run) -> None:
     run.check('self.neighbors = self._previous_neighbors' in t, rb.qualname, 'restores the neighbors', rb.loc(), 'rollback must restore the previous table')
     cm = model.func(CONF + '._commit_reload')
     t = norm(cm.node)
-    run.check('self.neighbors = self.neighbor.neighbors' in t and 'self.neighbors[neighbor].previous = self._previous_neighbors[neighbor]' in t, cm.qualname, 'installs the parsed neighbors and links each to its previous version', cm.loc(), 'the route delta is computed against neighbor.previous')
+    linked = any(True for _ in afind('self.neighbors[V_n].previous = self._previous_neighbors[V_n]', cm.node))
+    for lp in walk_no_nested(cm.node):
+        if isinstance(lp, ast.For) and norm(lp.iter) == 'self.neighbors.items()' and isinstance(lp.target, ast.Tuple) and len(lp.target.elts) == 2:
+            k_, v_ = (dotted(e) for e in lp.target.elts)
+            linked = linked or any(True for _ in afind('V_v.previous = self._previous_neighbors[V_k]', lp, {'V_k': k_, 'V_v': v_}))
+    run.check('self.neighbors = self.neighbor.neighbors' in t and linked, cm.qualname, 'installs the parsed neighbors and links each to its previous version', cm.loc(), 'the route delta is computed against neighbor.previous')
     # reload(): the catch-alls turn an exception into a False result
     arms = [h for n in walk_no_nested(rel.node) if isinstance(n, ast.Try) for h in n.handlers]
     names = [norm(h.type) if h.type is not None else '*' for h in arms]
@@ -137,7 +143,7 @@ def check(model: Model, run: Run) -> None:
         else:
             run.violation(
                 rr.qualname,
-                're-announce decided by route index only: %s' % ' and '.join(norm(t_) for t_, p in g if 'enabled' not in norm(t_))[:80],
+                're-announce decided by route index only',
                 rr.loc(adds[0]),
                 'Route.index() is family + prefix: a route kept by the new configuration with a changed MED, community or next hop '
                 'has the same index, is popped from the previous set and never re-announced (Neighbor.__eq__ ignores routes, so an '
@@ -147,23 +153,53 @@ def check(model: Model, run: Run) -> None:
         run.check(all(f is True for f in force), rr.qualname, 'new / changed routes are queued with force=True', rr.loc(adds[0]), 'the dedup cache must not swallow the re-announcement')
         gd = [(norm(t_), p) for t_, p in flat_guards(rr.node, dels[0])]
         run.check(gd in ([('self.enabled', True)], []), rr.qualname, 'routes gone from the configuration are withdrawn unconditionally (guards: %s)' % gd, rr.loc(dels[0]), 'a removed route must be withdrawn whatever the cache says (with adj-rib-out disabled in_cache() is always false)')
-        run.check('indexed.pop(index)' in norm(dels[0]) and any(isinstance(n, ast.For) and norm(n.iter) == 'list(indexed)' for n in walk_no_nested(rr.node)), rr.qualname, 'withdraws exactly what is left of the previous set', rr.loc(dels[0]), 'previous minus new')
+        pmn = prev_minus_new(model, rr)
+        run.check(pmn['filled'] and pmn['pruned'] and pmn['withdrawn'] == dels, rr.qualname, 'withdraws exactly what is left of the previous set', rr.loc(dels[0]), 'previous minus new')
 
     # ------------------------------------------------------------------ R4 failure touches no peer
     run.rule('C17.R4', 'Reactor.reload touches peers only after Configuration.reload() succeeded', floor=3)
     rf = model.func(REACTOR + '.reload')
     run.analysed(rf)
     rcfg = CFG(rf.node)
+    rl_ = Loc(model, rf)
+    rv = rl_.from_call('_Configuration.reload', 'Configuration.reload')
+    if not rv:
+        rv = rl_.from_value(lambda v: isinstance(v, ast.Call) and norm(v.func) == 'self.configuration.reload')
     guard = None
     for st in rf.node.body:
-        if isinstance(st, ast.If) and norm(st.test) in ('not reloaded', 'reloaded is not True', 'reloaded is False') and isinstance(st.body[-1], ast.Return):
+        if isinstance(st, ast.If) and isinstance(st.body[-1], ast.Return) and any(amatch(p_, st.test, {'V_r': r_}) is not None for r_ in rv for p_ in ('not V_r', 'V_r is not True', 'V_r is False')):
             guard = st
     run.check(guard is not None and folder.fold(guard.body[-1].value, rf.module) is False, rf.qualname, 'failed reload returns False first', rf.loc(guard) if guard is not None else rf.loc(), 'a failed reload must leave sessions alone')
     muts = [c for c in walk_no_nested(rf.node) if isinstance(c, ast.Call) and isinstance(c.func, ast.Attribute) and c.func.attr in ('remove', 'reestablish', 'reconfigure', 'listen_on')] + [c for c in walk_no_nested(rf.node) if isinstance(c, ast.Call) and model.call_matches(rf.module, c, 'Peer')]
     for c in muts:
-        run.check(guard is not None and c.lineno > guard.lineno, rf.qualname, '%s after the success test' % norm(c.func), rf.loc(c), 'peer changes must follow the success test')
-    src = [n for n in walk_no_nested(rf.node) if isinstance(n, ast.Assign) and dotted(n.targets[0]) == 'reloaded']
-    run.check(len(src) == 1 and norm(src[0].value) == 'self.configuration.reload()', rf.qualname, 'reloaded = self.configuration.reload()', rf.loc(), 'the test must look at the reload result')
+        what = c.func.attr if isinstance(c.func, ast.Attribute) else 'Peer(...)'
+        run.check(guard is not None and c.lineno > guard.lineno, rf.qualname, '%s after the success test' % what, rf.loc(c), 'peer changes must follow the success test')
+    run.check(len(rv) == 1 and len(rl_.values(rv[0])) == 1, rf.qualname, 'the success test reads the result of self.configuration.reload()', rf.loc(), 'the test must look at the reload result')
     # the per-peer decision: removed / new / changed / unchanged
-    t = norm(rf.node)
-    run.check('if key not in self.configuration.neighbors' in t and 'peer.remove()' in t and 'if key not in self._peers' in t and 'self._peers[key].neighbor != neighbor' in t and '.reestablish(neighbor)' in t and '.reconfigure(neighbor)' in t, rf.qualname, 'remove / new peer / reestablish / reconfigure', rf.loc(), 'each neighbor is handled according to what changed')
+    removed = created = changed = same = False
+    for lp in walk_no_nested(rf.node):
+        if not (isinstance(lp, ast.For) and isinstance(lp.target, ast.Tuple) and len(lp.target.elts) == 2):
+            continue
+        k_, v_ = (dotted(e) for e in lp.target.elts)
+        it = norm(lp.iter)
+        if it in ('self._peers.items()', 'list(self._peers.items())'):
+            for c in walk_no_nested(lp):
+                if isinstance(c, ast.Call) and amatch('V_p.remove()', c, {'V_p': v_}) is not None:
+                    removed = ('%s not in self.configuration.neighbors' % k_) in facts(rl_, c)
+        if it in ('self.configuration.neighbors.items()', 'list(self.configuration.neighbors.items())'):
+            recvs = ('self._peers[%s]' % k_, 'self._peers.get(%s)' % k_)
+            for c in walk_no_nested(lp):
+                if not isinstance(c, ast.Call):
+                    continue
+                fs = facts(rl_, c)
+                if model.call_matches(rf.module, c, 'Peer') and c.args and dotted(c.args[0]) == v_:
+                    created = bool({'%s not in self._peers' % k_, 'self._peers.get(%s) is None' % k_} & fs)
+                if isinstance(c.func, ast.Attribute) and c.func.attr in ('reestablish', 'reconfigure') and c.args and dotted(c.args[0]) == v_ and rl_.expand(c.func.value) in recvs:
+                    r_ = rl_.expand(c.func.value)
+                    differs = {'%s.neighbor != %s' % (x, v_) for x in recvs}
+                    equal = {'%s.neighbor == %s' % (x, v_) for x in recvs}
+                    if c.func.attr == 'reestablish':
+                        changed = bool(differs & fs)
+                    else:
+                        same = bool(equal & fs)
+    run.check(removed and created and changed and same, rf.qualname, 'remove / new peer / reestablish / reconfigure (%s)' % [removed, created, changed, same], rf.loc(), 'each neighbor is handled according to what changed: gone -> remove, new -> Peer, different -> reestablish, equal -> reconfigure')
